@@ -287,7 +287,7 @@ def alias_one(sc):
     frames = [L.adu(fr, 0x0101, target, pdu), L.adu(fr, 0x0102, other, rpdu(cnt))]
     reads = [(f, i + 1) for i, f in enumerate(frames)] if fe in L.DATAGRAM else frames
     rec = L.run(fe, fr, {"single": False, "bcast": False, "ignore": False}, [], reads,
-                direct=(fe == "tw_udp"), make_context=make)
+                make_context=make)
     before, after = dry, {u: L.dump(s) for u, s in rec.units}
     why = []
     if len(rec.delivered) != 2 or not rec.delivered[0]["results"] or rec.delivered[0]["results"][0][1][0] != "ok" \
@@ -422,12 +422,8 @@ def classify(suite, desc):
             return "F-C10-broadcast-stops-at-failing-unit"
         return None
     if suite == "filter":
-        if sc["fe"] == "tw_udp" and desc["observed"] == "FRaised TypeError":
-            return "F-C10-twisted-udp-dead"
-        hosted = [u for u, _ in sc["hosted"]]
-        if sc["fe"] == "sync_udp" and sc["cfg"]["bcast"] and not sc["cfg"]["single"] and sc["reqs"][0]["uid"] == 0 \
-                and 0 not in hosted and 255 not in hosted and desc["observed"] == "FDropped":
-            return "F-C10-sync-udp-broadcast-not-delivered"
+        # F-C10-twisted-udp-dead (/repo b36db33) and F-C10-sync-udp-broadcast-not-delivered (/repo 168efb6) are fixed:
+        # every failure of the unit-filter product is reported
         return None
     return None
 
@@ -438,9 +434,9 @@ def replay_finding(f):
         return tls_multi_unit()
     sc = c09._witness_scenario(w)
     if f["id"] == "F-C10-twisted-udp-dead":
-        return filter_observe(sc) == "FRaised TypeError"
+        return filter_observe(sc) != "FDelivered"      # fixed: the frame for the hosted unit must reach _execute
     if f["id"] == "F-C10-sync-udp-broadcast-not-delivered":
-        return filter_observe(sc) == "FDropped"
+        return filter_observe(sc) != "FDelivered"      # fixed: the unit-0 datagram must reach execute
     if f["id"] == "F-C10-broadcast-stops-at-failing-unit":
         rec = L.run_scenario(sc)
         return rec.logs[w["skipped_unit"]] == [] and rec.after[w["skipped_unit"]] == rec.before[w["skipped_unit"]]
@@ -488,8 +484,8 @@ MANIFEST = {
              "request effect: a request changes only the addressed unit's store; an absent unit changes nothing and is "
              "answered by silence or exactly exception 0x0B; broadcast executes once on every hosted unit and sends "
              "nothing; unit 0 is ordinary without broadcast; single mode routes every id to the one context; closed form "
-             "of _validate_unit_id on each front-end's unit list.  Refuted by witness: broadcast when a datastore raises, "
-             "unit-0 delivery on the sync UDP handler, the Twisted UDP entry point.  test_server_context checks dict access only."),
+             "of _validate_unit_id on each front-end's unit list.  Unit-0 frames reach execute on every front-end that has broadcast_enable; "
+             "the Twisted UDP entry point filters exactly like the asyncio datagram handler.  Refuted by witness: broadcast when a datastore raises.  test_server_context checks dict access only."),
     "note": ("Trusted: Coq kernel; translator shape matching; hand-written try/except/for semantics in Server.respond, tied "
              "to the seven real front-ends by correspondence (per-unit execution logs, table dumps, sent messages; exhaustive "
              "unit-filter product with real frames) evaluated with vm_compute; real table contents checked python-side."),
